@@ -69,7 +69,7 @@ PROPS = {
 },
     "C02": {
         "lean_modules": ["InTotoModel.Props.C02", "InTotoModel.Props.NonVacuity", "InTotoModel.Props.Spec"],
-        "claim": "verify = ok implies that the step names are pairwise distinct (a second step of a name is an error since fix c94147d; the model's stage 4 mirrors it, so the main theorem needs no hypothesis on names any more) and, for every step, max(1,threshold) distinct key ids that are in the step's pubkeys, in the key table, and have a file <step>.<prefix8>.link carrying a signature of that id valid under that key; evidence of unlisted keys and files filed under a prefix none of their signatures carries never count. Lean theorems (induction over the directory listing and the link tables); end-to-end fault injection on the real code. Props/Spec.lean adds both directions at once: c02_success_iff_every_clause_holds - verification succeeds exactly when every clause of the order-free specification Spec/Verify.lean holds (owners signed, unexpired, distinct usable step names, readable evidence, enough counted evidence per step, every counted piece standing for a link, agreement, representatives and rules, inspections and their rules), for every valid family of iteration orders.",
+        "claim": "Over all populations of the link directory (Props/Spec.lean, Lemmas/OtherFiles.lean): a file named like no evidence of any step, whatever it holds, inserted anywhere into the listing, changes neither verdict nor summary. verify = ok implies that the step names are pairwise distinct (a second step of a name is an error since fix c94147d; the model's stage 4 mirrors it, so the main theorem needs no hypothesis on names any more) and, for every step, max(1,threshold) distinct key ids that are in the step's pubkeys, in the key table, and have a file <step>.<prefix8>.link carrying a signature of that id valid under that key; evidence of unlisted keys and files filed under a prefix none of their signatures carries never count. Lean theorems (induction over the directory listing and the link tables); end-to-end fault injection on the real code. Props/Spec.lean adds both directions at once: c02_success_iff_every_clause_holds - verification succeeds exactly when every clause of the order-free specification Spec/Verify.lean holds (owners signed, unexpired, distinct usable step names, readable evidence, enough counted evidence per step, every counted piece standing for a link, agreement, representatives and rules, inspections and their rules), for every valid family of iteration orders.",
         "level_note": "Trusted: Lean kernel; hypotheses stated in the theorem: distinct step names, key table files keys under their own id (C12), glob-safe step names.",
         "technique": "Lean 4 theorems about an executable model + model/implementation correspondence check (differential run with property oracle)",
         "rule": "cases = end-to-end scenarios: a valid layout + link directory (real keys of every scheme, real signatures, optional sub-layouts and inspections) materialised in a scratch directory, usually with one injected fault whose effect is known by construction; ops = verify(scenario with constructed signature validity, observed inspection outcomes) run through the real in_toto_verify with a pinned clock; the model is evaluated under two opposite hash-map iteration orders (delegated evidence visited as the code does) and the sequences of inspection commands are compared in order, in failing runs too; distinct = distinct scenario; all are non-trivial (they get past argument parsing into stage 1)",
@@ -87,7 +87,7 @@ PROPS = {
 },
     "C06": {
         "lean_modules": ["InTotoModel.Props.C06", "InTotoModel.Props.NonVacuity", "InTotoModel.Props.Spec"],
-        "claim": "verify = ok implies the enforced layout's expiry is not earlier than the clock reading, and the same for every sub-layout that counted as evidence (via the C15 theorem, recursively). The reading of the expires text is modelled too (Model/Time.lean: chrono's RFC 3339 reader, conversion to UTC, truncation to the second, the writer): every notation of an instant - any UTC offset within +-23:59, Z/z, T/t/space, -/U+2212, with or without a fraction, leap seconds - reads as that instant (calendar arithmetic proved by decomposition, no bound on the year inside 0000-9999), instants are ordered as chrono orders them, and the written text reads back. Lean theorems for all clocks, instants and notations; boundary, far past/future and offset-notation scenarios on the real code with the clock hook; the reader/writer model is compared with chrono and with the layout reader on generated, re-notated and edited texts.",
+        "claim": "verify = ok implies the enforced layout's expiry is not earlier than the clock reading, and the same for every sub-layout that counted as evidence (via the C15 theorem, recursively). Over all moments (Props/Spec.lean, Lemmas/TimeMono.lean): what is accepted at a moment is accepted with the same summary at every earlier moment, and an expired layout is refused at every later one - the moment enters through the comparison with the expiry dates only. The reading of the expires text is modelled too (Model/Time.lean: chrono's RFC 3339 reader, conversion to UTC, truncation to the second, the writer): every notation of an instant - any UTC offset within +-23:59, Z/z, T/t/space, -/U+2212, with or without a fraction, leap seconds - reads as that instant (calendar arithmetic proved by decomposition, no bound on the year inside 0000-9999), instants are ordered as chrono orders them, and the written text reads back. Lean theorems for all clocks, instants and notations; boundary, far past/future and offset-notation scenarios on the real code with the clock hook; the reader/writer model is compared with chrono and with the layout reader on generated, re-notated and edited texts.",
         "level_note": "Trusted: Lean kernel; the hand-written model of chrono's RFC 3339 reader/writer (validated differentially against chrono 0.4.45 and against LayoutMetadata's own (de)serialiser); the clock hook.",
         "technique": "Lean 4 theorems about an executable model + model/implementation correspondence check (differential run with property oracle)",
         "rule": "cases = end-to-end scenarios: a valid layout + link directory (real keys of every scheme, real signatures, optional sub-layouts and inspections) materialised in a scratch directory, usually with one injected fault whose effect is known by construction; ops = verify(scenario with constructed signature validity, observed inspection outcomes) run through the real in_toto_verify with a pinned clock; the model is evaluated under two opposite hash-map iteration orders (delegated evidence visited as the code does) and the sequences of inspection commands are compared in order, in failing runs too; distinct = distinct scenario; all are non-trivial (they get past argument parsing into stage 1)",
